@@ -692,8 +692,9 @@ class Laplacian(PointwiseTensorFieldOperator):
         if range is None:
             range = domain
 
+        linear = not (pad_mode == 'constant' and pad_const != 0)
         super(Laplacian, self).__init__(
-            domain, range, base_space=domain, linear=True)
+            domain, range, base_space=domain, linear=linear)
 
         self.pad_mode, pad_mode_in = str(pad_mode).lower(), pad_mode
         if pad_mode not in _SUPPORTED_PAD_MODES:
@@ -765,6 +766,11 @@ class Laplacian(PointwiseTensorFieldOperator):
 
         The laplacian is self-adjoint, so this returns ``self``.
         """
+        if not self.is_linear:
+            raise ValueError('operator with nonzero pad_const ({}) is not'
+                             ' linear and has no adjoint'
+                             ''.format(self.pad_const))
+
         return Laplacian(self.range, self.domain,
                          pad_mode=self.pad_mode, pad_const=0)
 
